@@ -203,7 +203,6 @@ func runC04Script(c incrConf, sc c03Script, startOffset int64, restartPicks []in
 	return out
 }
 
-
 type cutInfo struct {
 	ck          ckState
 	applied     int
